@@ -72,6 +72,17 @@ class Note(NamedTuple):
         # bool(...) wrapper to satisfy mypy
         return bool(self._comparable() < other._comparable())
 
+    # NamedTuple already inherits >, <= and >= from tuple, so total_ordering
+    # leaves those in place; define them explicitly to agree with __lt__
+    def __gt__(self, other) -> bool:
+        return bool(self._comparable() > other._comparable())
+
+    def __le__(self, other) -> bool:
+        return bool(self._comparable() <= other._comparable())
+
+    def __ge__(self, other) -> bool:
+        return bool(self._comparable() >= other._comparable())
+
     def __str__(self):
         """
         Returns the note string as it would appear in note data.
